@@ -85,7 +85,10 @@ func resCoq(r *resource.Resource) string {
 	return vgen.App("mkRes", kvsCoq(r.Attributes()), hs(r.SchemaURL()))
 }
 func scopeCoq(s instrumentation.Scope) string {
-	return vgen.App("mkScope", hs(s.Name), hs(s.Version), hs(s.SchemaURL), kvsCoq(s.Attributes.ToSlice()))
+	// sc_alloc: an empty attribute set that is not the zero attribute.Set (attribute.NewSet() and friends):
+	// the same scope for every reader, another Go map key for the transform code.
+	alloc := s.Attributes.Len() == 0 && s.Attributes != (attribute.Set{})
+	return vgen.App("mkScope", hs(s.Name), hs(s.Version), hs(s.SchemaURL), kvsCoq(s.Attributes.ToSlice()), vgen.Bool(alloc))
 }
 
 // ---- protobuf side ----
@@ -122,6 +125,19 @@ func presCoq(r *resourcepb.Resource, schema string) string {
 }
 func pscopeCoq(s *commonpb.InstrumentationScope, schema string) string {
 	return vgen.App("mkPScope", hs(s.GetName()), hs(s.GetVersion()), pkvsCoq(s.GetAttributes()), hs(schema))
+}
+
+// twoSpellings: the pool holds one scope twice, its empty attribute set spelled as the zero Set and as
+// an allocated empty set.
+func twoSpellings(pool []instrumentation.Scope) bool {
+	for i, a := range pool {
+		for _, b := range pool[i+1:] {
+			if a != b && a.Attributes.Len() == 0 && b.Attributes.Len() == 0 && a.Name == b.Name && a.Version == b.Version && a.SchemaURL == b.SchemaURL {
+				return true
+			}
+		}
+	}
+	return false
 }
 
 func natPair3(ri, si int, body string) string {
